@@ -23,8 +23,17 @@ use std::io::Error;
 use std::mem::MaybeUninit;
 use std::os::unix::io::AsRawFd;
 use std::ptr;
+#[cfg(sighook_verif)]
+use std::sync::atomic::Ordering;
+#[cfg(not(sighook_verif))]
 use std::sync::atomic::{AtomicBool, Ordering};
+#[cfg(sighook_verif)]
+use std::sync::Arc;
+#[cfg(not(sighook_verif))]
 use std::sync::{Arc, Mutex};
+
+#[cfg(sighook_verif)]
+use signal_hook_registry::verif::shim::{AtomicBool, Mutex};
 
 use libc::{self, c_int};
 
@@ -303,6 +312,8 @@ where
     fn flush(&mut self) {
         const SIZE: usize = 1024;
         let mut buff = [0u8; SIZE];
+        #[cfg(sighook_verif)]
+        signal_hook_registry::verif::syscall("flush", self.read.as_raw_fd());
 
         unsafe {
             // Draining the data in the self pipe. We ignore all errors on purpose. This
@@ -359,6 +370,18 @@ where
             Ok(true) => Ok(Some(self.pending())),
             Err(err) => Err(err),
         }
+    }
+
+    /// Addresses of (closed flag, ids mutex, first slot) and the size of one slot.
+    #[cfg(sighook_verif)]
+    #[doc(hidden)]
+    pub fn verif_layout(&self) -> [usize; 4] {
+        [
+            &self.handle.delivery_state.closed as *const _ as usize,
+            &self.handle.delivery_state.registered_signal_ids as *const _ as usize,
+            &self.pending.slots[0] as *const _ as usize,
+            std::mem::size_of::<E::Storage>(),
+        ]
     }
 
     /// Get a [`Handle`] for this `SignalDelivery` instance.
